@@ -43,6 +43,18 @@ pub enum BareOp {
     CellStyle { sheet: u32, row: i32, col: i32, style: Style },
     /// to_bytes -> from_bytes of the bare model
     Restart,
+    // ---- model-level operations (C27 speaks of "user-model and model operations") ----
+    AddSheet { name: String },
+    InsertSheet { name: String, index: u32 },
+    RenameSheet { index: u32, name: String },
+    DeleteSheet { index: u32 },
+    Input { sheet: u32, row: i32, col: i32, text: String },
+    InsertRows { sheet: u32, row: i32, n: i32 },
+    InsertCols { sheet: u32, col: i32, n: i32 },
+    DeleteRows { sheet: u32, row: i32, n: i32 },
+    DeleteCols { sheet: u32, col: i32, n: i32 },
+    MoveRows { sheet: u32, row: i32, n: i32, delta: i32 },
+    MoveCols { sheet: u32, col: i32, n: i32, delta: i32 },
 }
 
 #[derive(Serialize, Deserialize, Clone, Debug, PartialEq)]
